@@ -123,7 +123,12 @@ impl<const N: usize, T: Send + Sync> AtomicIter<T> for ConIterOfArray<N, T> {
     }
 
     fn early_exit(&self) {
-        self.counter().store(N)
+        // reserves all positions at once: the positions which had not been reserved before belong to this call,
+        // they will never be delivered and are dropped here
+        let begin = self.counter().fetch_and_add(N);
+        if begin < N {
+            drop(unsafe { self.take_slice(begin, N - begin) });
+        }
     }
 }
 
